@@ -207,3 +207,27 @@ Lemma refuted_with :
   known_K2 [("w", 2%Z, false)] [("w", 5%Z)] = true /\
   configure [("w", 2%Z, false)] [("w", 5%Z)] <> spec_configure [("w", 2%Z, false)] [("w", 5%Z)].
 Proof. split; [reflexivity | vm_compute; discriminate]. Qed.
+
+(* ------------------------------------------------------------------ a forwarded built-in module *)
+Lemma fwd_builtin_ok a pfx e : known_K4 a pfx e = false -> fwd_builtin a pfx e = spec_fwd_builtin a pfx e.
+Proof.
+  unfold known_K4, fwd_builtin, spec_fwd_builtin. intros H.
+  assert (V : visible_var e (rename pfx "pi") = allow_var e (pfx_name pfx "pi")).
+  { destruct pfx, e; reflexivity. }
+  destruct a; try discriminate; try reflexivity.
+  - destruct (allow_var e (pfx_name pfx "pi")); [|reflexivity]. cbn [andb] in H.
+    apply negb_false_iff in H. rewrite H. reflexivity.
+  - rewrite H. reflexivity.
+Qed.
+
+(* a plain (or hide-filtered) forward keeps the guard: the forwarded built-in variable cannot be assigned *)
+Lemma fwd_builtin_plain_guard e : allow_var e marker_name = true -> fwd_builtin FAssignBuiltin None e = FErr.
+Proof. intros H. unfold fwd_builtin, marker_survives. rewrite H. destruct (allow_var e (pfx_name None "pi")); reflexivity. Qed.
+
+Lemma refuted_fwd_builtin :
+  known_K4 FAssignBuiltin (Some "m-") EAll = true /\
+  fwd_builtin FAssignBuiltin (Some "m-") EAll <> spec_fwd_builtin FAssignBuiltin (Some "m-") EAll /\
+  known_K4 FAssignOwn None EAll = true /\
+  fwd_builtin FAssignOwn None EAll <> spec_fwd_builtin FAssignOwn None EAll /\
+  fwd_builtin FConfigBuiltin None EAll <> spec_fwd_builtin FConfigBuiltin None EAll.
+Proof. repeat split; try reflexivity; vm_compute; discriminate. Qed.
